@@ -4,6 +4,7 @@ use crate::vm::continuation::Continuation;
 use crate::vm::gc;
 use crate::vm::gc::State;
 use crate::vm::lambda::Lambda;
+use crate::vm::opcode::OpCode;
 use crate::vm::vcell::VCell;
 use log::trace;
 use num::ToPrimitive;
@@ -470,8 +471,18 @@ impl Heap {
     ///
     /// Iterate the lambda byte code and mark any value that contains a reference type
     pub fn mark_lambda(&mut self, lambda: &Lambda) {
-        // Mark every bytecode cell
+        // Mark every bytecode cell, except the operand of JMP/JNT: it is an
+        // offset into this bytecode vector, not a heap reference.
+        let mut is_jump_offset = false;
         for it in &lambda.bc {
+            if is_jump_offset {
+                is_jump_offset = false;
+                continue;
+            }
+            if let VCell::OpCode(OpCode::Jmp) | VCell::OpCode(OpCode::Jnt) = it {
+                is_jump_offset = true;
+                continue;
+            }
             self.mark_vcell(it)
         }
 
